@@ -126,6 +126,13 @@ CHECKS["C16"] = (
     "5.C16",
 )
 
+CHECKS["C19"] = (
+    "CrossHair-explored selector spaces over detection-name subsets x condition forms, id/title/file assignments, rule and validator orders, exclusion tables; real validators vs an independent reference resolver and equivalence-class oracle",
+    "Reference checks: 63 detection name subsets x 14 condition forms (1..2 conditions): dangling detection iff not referenced by name or matching selector, dangling condition iff a selector matches nothing. Uniqueness: 4 (verbatim-copy) rules with id from 3 values or none, 2 titles, 2 file names x 2 directories: issue groups == equivalence classes. Purity/order/exclusions: all built-in offline validators over 4 rules in all 24 orders x 4 validator orders x before/after conversion x 8 exclusion tables; per-rule issues equal the stand-alone validation of each rule; to_dict() and queries unchanged.",
+    TB,
+    "5.C19",
+)
+
 NOT_APPLICABLE = {}
 
 ALL = [f"C{n:02d}" for n in range(1, 21)]
